@@ -82,6 +82,7 @@ type world struct {
 	acctKeys         map[string]*hdkeychain.ExtendedKey // scope/account/branch -> branch xpub-capable key
 	violated         bool
 	pendingFail      map[string]int
+	pendingFailNth   map[string]int
 	convertRequested bool
 	// C16
 	paid                []paidRec
@@ -233,6 +234,10 @@ func (x *world) open() error {
 		x.env.Count("probe.sync-after-backend-failure")
 	}
 	x.pendingFail = nil
+	for _, k := range core.SortedKeys(x.pendingFailNth) {
+		x.client.FailNth[k] = x.pendingFailNth[k]
+	}
+	x.pendingFailNth = nil
 	for _, a := range x.pendingResend {
 		if a != "" && a != "notify-received-fails" {
 			x.client.SendAnswers = append(x.client.SendAnswers, a)
